@@ -4,10 +4,12 @@ package checks
 
 import (
 	"fmt"
+	"strings"
 	"time"
 
 	"github.com/vipnode/vipnode/v2/internal/verif/vh"
 	"github.com/vipnode/vipnode/v2/internal/verif/vsched"
+	"github.com/vipnode/vipnode/v2/pool"
 	"github.com/vipnode/vipnode/v2/pool/store"
 )
 
@@ -149,14 +151,56 @@ func c06Unit(depth, shard, nshards int) vh.Unit {
 						var err2 error
 						if p := vh.Recover(func() { _, err2 = next.Invoke(pw, vh.CtxWith(pw.Host("x").Service())) }); p != "" {
 							u.Violate("c06/"+endpoint+"/panic/follow-up", desc+": follow-up panic: "+p, nil)
+							continue
 						} else if vh.IsRefused(err2) {
 							u.Violate("c06/"+endpoint+"/nonce-consumed-by-refused-request/"+kind, fmt.Sprintf("%s: the owner's next legitimate %s (nonce below the refused one, above its own last) was refused: %v", desc, next.Endpoint, err2), nil)
+							continue
+						}
+						// differential oracle: what the pool does from here on is what it would have
+						// done had the refused request never arrived (a twin world with the same
+						// history, the same follow-up, but without the refused request)
+						twin := build()
+						if kind == "replayed" {
+							warm.Invoke(twin, vh.CtxWith(twin.Host("x").Service()))
+						}
+						twin.Host("attacker-conn")
+						next.Invoke(twin, vh.CtxWith(twin.Host("x").Service()))
+						var got, want string
+						if p := vh.Recover(func() { got = c06Probe(pw, cast, now) }); p != "" {
+							u.Violate("c06/"+endpoint+"/panic/after-refusal", desc+": later request panicked: "+p, nil)
+							continue
+						}
+						vh.Recover(func() { want = c06Probe(twin, cast, now) })
+						if got != want {
+							u.Violate("c06/"+endpoint+"/refused-request-changed-later-behaviour/"+kind, fmt.Sprintf("%s: the pool's later behaviour differs from a pool that never saw the refused request\n with    %s\n without %s", desc, got, want), nil)
 						}
 					}
 				}
 			}
 		}
 	}}
+}
+
+// c06Probe exercises the pool after the fact: who gets asked to whitelist a requesting client, what
+// closing the connection the refused request arrived on does, what the next keep-alive bills.
+func c06Probe(pw *vh.PoolWorld, cast *vh.Cast, now int64) string {
+	var b strings.Builder
+	// (the virtual clock is global: both worlds are probed at the instant of the refused request)
+	vsched.ResetClock(time.Duration(now - vsched.Base().UnixNano()))
+	C1, C2 := cast.ByName["C1"], cast.ByName["C2"]
+	ask := func(tag string, n int64) {
+		resp, err := vh.NewCall("vipnode_peer", C2, now+n, pool.PeerRequest{Num: 3}).Invoke(pw, vh.CtxWith(pw.Host("probe").Service()))
+		fmt.Fprintf(&b, "%s: peers=%s err=%v calls=%s remotes=%d | ", tag, vh.ShortJSON(resp), err, pw.CallLog(), pw.Pool.NumRemotes())
+	}
+	pw.Store.SetNode(store.Node{ID: store.NodeID(C2.NodeID), Kind: "geth", LastSeen: vsched.Now()})
+	ask("peer", 2000)
+	err := pw.Pool.CloseRemote(pw.Host("attacker-conn").Service())
+	fmt.Fprintf(&b, "close attacker-conn err=%v | ", err)
+	ask("peer-after-close", 2001)
+	vsched.Advance(30 * time.Second)
+	_, err = vh.NewCall("vipnode_update", C1, now+2002, vh.DefaultParam("vipnode_update", cast.ByName["H1"].NodeID)).Invoke(pw, vh.CtxWith(pw.Host("x").Service()))
+	fmt.Fprintf(&b, "keep-alive err=%v state=%s", err, poolDigest(pw, cast))
+	return b.String()
 }
 
 func nodeView(pw *vh.PoolWorld, id *vh.Ident) string {
